@@ -154,6 +154,17 @@ func RunBridgeHistories(c Ctx, rep *report.Report, rng *chain.Rng, o BOpts, next
 		if hI%4 == 3 {
 			powers, wl, nv = []int64{35, 30, 20, 15}, []bool{true, true, true, true}, 4
 		}
+		// templates about a validator that stands on the whitelist twice (MsgUpdateWhiteListValidator "add" appends without
+		// looking; a genesis may repeat an entry): it counts once, and one removal takes it off the list
+		dupGenesis := false
+		if hI%8 == 1 {
+			powers, wl, nv = []int64{60, 20, 20}, []bool{true, true, true}, 3
+		}
+		if hI%8 == 5 {
+			powers, wl, nv = []int64{20, 20, 60}, []bool{true, true, true}, 3
+			dupGenesis = true
+			env.BridgeWhitelistTweak = func(l []string) []string { return append(l, l[len(l)-1]) }
+		}
 		// a third of the chains start from a genesis that is paused and carries a blacklist (and, as an export without a fee
 		// receiver writes it, an empty receiver): what the genesis says must be in force from the first block
 		gPaused, gBlack := false, []string(nil)
@@ -170,7 +181,9 @@ func RunBridgeHistories(c Ctx, rep *report.Report, rng *chain.Rng, o BOpts, next
 		}
 		e := env.NewBridge(powers, wl, 3)
 		env.BridgeGenesisTweak = nil
-		h := BHistory{ID: hI, Env: e, Desc: map[string]interface{}{"seed": c.Seed, "history": hI, "powers": powers, "whitelisted": wl, "genesis_paused": gPaused, "genesis_blacklist": gBlack}}
+		env.BridgeWhitelistTweak = nil
+		h := BHistory{ID: hI, Env: e, Desc: map[string]interface{}{"seed": c.Seed, "history": hI, "powers": powers, "whitelisted": wl, "genesis_paused": gPaused, "genesis_blacklist": gBlack,
+			"genesis_whitelist_repeats_last_validator": dupGenesis}}
 		{
 			s0 := e.Snapshot()
 			var wantB, wantP []int64
@@ -215,6 +228,12 @@ func RunBridgeHistories(c Ctx, rep *report.Report, rng *chain.Rng, o BOpts, next
 		var forced []forcedStep
 		if hI%4 == 3 {
 			forced = []forcedStep{{kind: 1, val: 0, ev: 7, variant: 0}, {kind: 1, val: 1, ev: 7, variant: 0}, {kind: 3, val: 3, add: false}, {kind: 1, val: 2, ev: 7, variant: 1 + rng.Intn(2)}, {kind: 1, val: 2, ev: 7, variant: 0}}
+		}
+		if hI%8 == 1 { // v0 (60%) is added a second time and then claims alone: 60% is not 70%
+			forced = []forcedStep{{kind: 3, val: 0, add: true}, {kind: 1, val: 0, ev: 7, variant: 0}, {kind: 1, val: 1, ev: 7, variant: 1}}
+		}
+		if hI%8 == 5 { // v2 (60%, listed twice by the genesis) is removed and then claims; v0 and v1 (all that is left) agree
+			forced = []forcedStep{{kind: 3, val: 2, add: false}, {kind: 1, val: 2, ev: 7, variant: 1}, {kind: 1, val: 0, ev: 7, variant: 0}, {kind: 1, val: 1, ev: 7, variant: 0}}
 		}
 		for st := 0; st < o.Steps; st++ {
 			var fs *forcedStep
